@@ -4,7 +4,9 @@ For every catalogued single edit of the *current* /repo sources (a scratch copy
 under $TMPDIR, removed at once) the property's check must FIRE (a breaking
 edit, naming the expected rule when one is given) or stay SILENT (a behaviour-
 preserving twin).  Seeded changes kept under /verif/seeded/<id>/ whose meta.json
-lists this property under "checks_fired" are replayed the same way.  An edit
+lists this property under "checks_fired" are replayed the same way, and every
+behaviour-preserving refactoring kept under /verif/refactorings/<id>/ is replayed
+as a twin for every property.  An edit
 whose anchor text no longer exists in /repo is skipped and counted, never a
 failure.  The self-test decides nothing about /repo: it shows that a silent rule
 is silent because the code is right, not because the rule matches nothing."""
@@ -79,6 +81,12 @@ def entries_for(pid):
                     continue
                 if pid in (meta.get("checks_fired") or {}):
                     out.append({"prop": pid, "name": f"seeded/{name}", "kind": "break", "patch": pp})
+    rd = os.path.join(VERIF, "refactorings")
+    if os.path.isdir(rd):
+        for name in sorted(os.listdir(rd)):
+            pp = os.path.join(rd, name, "patch.diff")
+            if os.path.exists(pp):
+                out.append({"prop": pid, "name": f"refactoring/{name}", "kind": "twin", "patch": pp})
     return out
 
 
